@@ -180,6 +180,7 @@ def main(argv=None):
     return 0
 
   # listed known findings: replay each, report it only while it still fails
+  known_reported = []
   for k in prop.known:
     prop.ignore_known = True
     try:
@@ -188,8 +189,10 @@ def main(argv=None):
       prop.ignore_known = False
     if v is not None:
       print("KNOWN-FINDING: property=%s %s" % (prop.id, k["what"]))
+      known_reported.append({"bucket": k["bucket"], "still_reproduces": True, "what": k["what"]})
     else:
       print("note: listed finding no longer reproduces: %s" % k["what"])
+      known_reported.append({"bucket": k["bucket"], "still_reproduces": False, "what": k["what"]})
 
   if args.tier == "thorough" and prop.shards > 1:
     stats, failures = run_sharded(prop, args.tier, seed)
@@ -208,7 +211,8 @@ def main(argv=None):
     raise HarnessError("fewer than 2 non-trivial cases generated; generator is broken")
   if not os.environ.get("VERIF_NO_EVIDENCE"):
     common.write_evidence(prop.id, args.tier, seed, stats, prop.rule, prop.assumptions,
-                          timer.wall(), len(failures), extra=prop.extra_evidence(stats))
+                          timer.wall(), len(failures),
+                          extra=dict(prop.extra_evidence(stats), known_findings=known_reported))
   print("%s %s: %d cases, %d distinct non-trivial, %d violation(s), %.1fs" % (
     prop.id, args.tier, stats.evaluations, len(stats.nontrivial), len(failures), timer.wall()))
   if failures:
